@@ -9,6 +9,7 @@ import ast
 from ..astq import arg, canon, const, ext_names, global_names, handler_classes, inside, is_name, loc, names_in, stmt_of
 from ..cfg import CFG
 from ..model import AnalysisError, Func, head, norm
+from . import roles
 from . import engine as E
 
 
@@ -37,7 +38,7 @@ def rule_plan_records_dependencies(ctx, rid):
     from ..absval import AbsRaise, Stub
     from . import runrules as R_
     from .rewriterules import World
-    pc = m.method("Plan", "_call", "PLAN")
+    pc = roles.call_ctor(m)
     rr_ = R_.discover(m, E.discover(m))
     w = World(m, rr_)
     x, y, z = w.call("x"), w.call("y"), w.call("z")
@@ -105,7 +106,7 @@ def rule_exit_not_truthy(ctx, rid):
 
 def rule_composite_exit_stack(ctx, rid):
     m = ctx.model
-    comp = m.one_class("CompositeProgressObserver", "COMPOSITE")
+    comp = roles.composite_observer(m)
     en, ex = comp.methods.get("__enter__"), comp.methods.get("__exit__")
     if not (en and ex):
         ctx.ob(rid, "Composite/enter-exit", False, "", "composite observer lacks __enter__/__exit__")
@@ -177,7 +178,15 @@ def rule_error_path_total(ctx, rid):
            "user objects in node reprs are formatted by reprlib.Repr().repr (absorbs exceptions of user __repr__)" if ok else
            "compact_repr is no longer reprlib's: a raising user __repr__ now escapes from NodeError(node) inside the worker's "
            "failure handler and kills the worker thread")
-    rh = m.one_func("repr_helper", "REPR")
+    # REPR: the helper of uberjob._util through which the node classes format themselves (today repr_helper)
+    rhs = None
+    for cname in ("Node", "Literal", "Call"):
+        r0 = m.one_class(cname, "REPR").methods.get("__repr__")
+        cs_ = {g for c in (r0.own_calls() if r0 else ()) for g in m.callee_funcs(r0, c) if g.cls is None and g.module.name.startswith("uberjob._util")}
+        rhs = cs_ if rhs is None else (rhs & cs_)
+    if not rhs or len(rhs) != 1:
+        raise AnalysisError("role REPR: the node classes' __repr__ methods do not share one helper of uberjob._util")
+    rh = next(iter(rhs))
     direct = [c for c in rh.own_calls() if is_name(c.func, "repr") or (isinstance(c.func, ast.Name) and c.func.id == "str" and c.args and not isinstance(c.args[0], ast.Constant))]
     kv = set()
     for n_ in rh.own_nodes():
@@ -249,7 +258,7 @@ def rule_capture_method_callers(ctx, rid):
     gsf = m.one_func("get_stack_frame", "CAPTURE")
     for f in run:
         for c in f.own_calls():
-            if not (isinstance(c.func, ast.Attribute) and c.func.attr in ("_gather", "_call")):
+            if not (isinstance(c.func, ast.Attribute) and c.func.attr in (roles.frame_gather(m).name, roles.call_ctor(m).name)):
                 continue
             n += 1
             a0 = c.args[0] if c.args else None
@@ -273,7 +282,16 @@ def rule_result_slots(ctx, rid):
     from .evalrules import rule_run_callback
     rr_ = R_.discover(m, E_.discover(m))
     rule_run_callback(ctx, rr_, rid_slots=rid)
-    slot = m.one_class("Slot", "SLOT")
+    # SLOT: the class of the result cells the preparation creates (the class of the output slot on the symbolic plan)
+    from .evalrules import RunEval
+    from ..absval import AbsRaise as _AbsRaise
+    try:
+        _tb, _os, _pr = RunEval(m, rr_).prepare()
+    except _AbsRaise as e_:
+        raise AnalysisError(f"abstract evaluation of the run preparation raised {e_.value!r}")
+    if _os is None or _os.cls is None:
+        raise AnalysisError("role SLOT: the run preparation hands out no output slot object")
+    slot = _os.cls
     n = 0
     for g in m.funcs.values():
         if not g.module.name.startswith("uberjob._execution"):
@@ -286,7 +304,7 @@ def rule_result_slots(ctx, rid):
                     if g.name == "__init__" and g.pos_params and is_name(t.value, g.pos_params[0]):
                         continue  # a constructor initialising its own object
                     n += 1
-                    if g.name == "run" and g.cls is not None and g.cls.name == "BoundCall" and norm(t) == f"{g.pos_params[0]}.result.value":
+                    if g is rr_.bound_run and norm(t) == f"{g.pos_params[0]}.result.value":
                         ctx.ob(rid, f"{g.short}/result-store", True, loc(g, node), "the call's own result slot (a Slot by the two rules above)", norm(node)[:80])
                         continue
                     os_ = m.origins_of(g, t.value)
@@ -318,8 +336,32 @@ def rule_worklists_terminate(ctx, rid):
     pushed once): terminates on cyclic input as well."""
     m = ctx.model
     n = 0
+    # decided by evaluation instead (termination on cyclic plans / on every small digraph): the pruning transformation with the
+    # ancestor closure below it, and the engine's acyclicity assertion with its topological pass
+    from . import engine as E_
+    from . import runrules as R_
+    from .prunerules import prune_role, rule_pruning_evaluated
+    er_ = E_.discover(m)
+    rr_ = R_.discover(m, er_)
+    evaluated = set()
+    pr_ = prune_role(m, rr_)
+    evaluated |= {pr_} | set(m.reachable([pr_], kinds=("call",)))
+    rule_pruning_evaluated(ctx, rid, rr_)
+    for st_ in er_.engine.node.body:
+        c_ = st_.value if isinstance(st_, ast.Expr) and isinstance(st_.value, ast.Call) else None
+        if c_ is not None and c_.args and is_name(c_.args[0], er_.engine.pos_params[0]):
+            for f_ in m.callee_funcs(er_.engine, c_):
+                try:
+                    if E_.evaluate_cycle_check(m, f_)[0]:
+                        evaluated |= {f_} | set(m.reachable([f_], kinds=("call",)))
+                        n += 1
+                except AnalysisError:
+                    pass
     for f in m.funcs.values():
         if not f.module.name.startswith(("uberjob._util.networkx_util", "uberjob._execution.greedy", "uberjob._transformations")):
+            continue
+        if f in evaluated:
+            n += 1 if any(isinstance(x, ast.While) for x in f.own_nodes()) else 0
             continue
         for w in [x for x in f.own_nodes() if isinstance(x, ast.While)]:
             if not isinstance(w.test, ast.Name):
